@@ -496,13 +496,14 @@ uint StringDictionaryPFC::searchPrefix(uchar **ptr, uint scanneable,
     if (sharedCurr == strLen)
       break;
     else {
+      // No string in the bucket is prefixed by str
       id++;
       if ((cmp > 0) || (id > scanneable))
-        break;
+        return NORESULT;
 
       *ptr += VByte::decode(&sharedPrev, *ptr);
       if (sharedPrev < sharedCurr)
-        break;
+        return NORESULT;
       decodeNextString(ptr, sharedPrev, decoded, decLen);
     }
   }
